@@ -342,6 +342,11 @@ def simplify_inequality(
             # a trivial or a contradictory assumption cannot be used to eliminate anything.
             continue
 
+        if not isinstance(assumption.lhs, Symbol) and isinstance(lhs, Symbol):
+            # simplifying the relation may have moved terms to its left side (x = 10 - 2y becomes x + 2y = 10);
+            # a sum cannot be substituted reliably, the assumption as it was given can.
+            assumption = Eq(lhs, rhs, evaluate=False)
+
         left_expr = left_expr.subs(assumption.lhs, assumption.rhs)
         right_expr = right_expr.subs(assumption.lhs, assumption.rhs)
 
